@@ -394,7 +394,7 @@ PROPS = {
     "C11": {
         "level": "proof",
         "level_prefix": "Partial proof -- contracts discharged without bound on the mechanisms named below, not the whole statement (bounded stand-ins and what is left out are listed): ",
-        "units": ["tsig"],
+        "units": ["tsig", "tsigvars"],
         "vx_search": {"bin": "c11_search_small_tsig", "crate": "replay_tsig", "release": True,
                       "what": "Time48 wire round trip and eq_fudged on a grid around the byte and fudge edges; Key::new against the RFC 8945 "
                               "5.2.2.1 length rule for all algorithms and lengths 0..=70; request/answer/three-answer sequences signed and "
@@ -417,15 +417,19 @@ PROPS = {
                        "lets the run of unsigned messages exceed 99 and ClientSequence::done is Ok iff the last message was signed; "
                        "ServerSequence::answer_with_fudge (real text, HMAC and TSIG record construction as assumed stubs) continues "
                        "its running context with exactly the MAC it puts on the wire (possibly truncated), which is what the "
-                       "receiver continues with; Tsig::new/rdlen: the 65535-octet limit (see C05). One native replay computes the MAC of a BADTIME error "
+                       "receiver continues with; Tsig::new/rdlen: the 65535-octet limit (see C05). Variables::sign (unit tsigvars, real text): what is fed to "
+                       "the HMAC after the message is exactly the RFC 8945 4.3.3 TSIG variables in order -- key name in canonical wire form (labels "
+                       "lower-cased), CLASS ANY, TTL 0, algorithm name, 48-bit time signed, fudge, error, other length (6 or 0) and the other data. One native replay computes the MAC of a BADTIME error "
                        "response independently (regression guard for D9, a sample, not an obligation).",
-        "not_covered": "MAC values and signed-octet layout (Variables::sign, SigningContext::*: to_be_bytes has no Verus specification and "
-                       "the tsig feature is not built under Kani), end-to-end sign/verify, tamper rejection, TSIG record placement "
+        "not_covered": "MAC values (ring) and the message part of the signed octets (SigningContext::*: the tsig feature is not built under Kani), end-to-end sign/verify, tamper rejection, TSIG record placement "
                        "(MessageTsig::from_message), unsigned-message run length in ClientSequence::answer_subsequent (inside a "
                        "generic function over Message), restoring the pre-signing octets.",
         "assumptions": [
             "ring::hmac::{Algorithm, Tag} are prelude models (digest lengths 20/32/48/64); constant_time_eq is slice equality",
             "core::cmp::max is specified through vstd's OrdSpec",
+            "unit tsigvars: {u16,u32}::to_be_bytes give the big-endian octets (method name substituted by a model trait's), Time48::into_octets as proved in unit tsig, "
+            "key.name.iter_labels().map(Label::to_canonical) is a cursor over the lower-cased labels, Algorithm::into_wire_slice is an uninterpreted function of the algorithm "
+            "(the native search compares the resulting MACs with an independent computation for all four algorithms)",
         ],
     },
     "C15": {
